@@ -3,6 +3,7 @@ import Enc.Spec.Protobuf
 import Enc.Lemmas.ProtoVarint
 import Enc.Lemmas.ProtoWireVal
 import Enc.Lemmas.ProtoLiberal
+import Enc.Lemmas.ProtoMap
 /-!
 # C12 — proto bytes are standard protobuf wire format, both ways
 Property theorems only.
@@ -94,5 +95,26 @@ with the same values and reject the same inputs -/
 theorem unmarshal_iff_reference_decode (fs : Fields) (hty : tyOK (.struct fs) = true) (b : Bytes) (v : Val)
     (hz : ¬ ZeroNum fs b) : unmarshal (.struct fs) b = .ok v ↔ Spec.Protobuf.decode (.struct fs) b = some v :=
   Lemmas.ProtoLiberal.unmarshal_iff_decode fs hty b v hz
+
+/-! ## map fields (proofs in Enc/Lemmas/ProtoMap*.lean): universe `tyOKM` = `tyOK` + `map[K]V` fields -/
+
+open Lemmas.ProtoWire Lemmas.ProtoMap in
+/-- **bytes, with maps.** A map field is written as one length-delimited record per entry, each holding the key as
+field 1 and the value as field 2 (`allRecordsM`), which is the protobuf wire format of `map<K,V>`. -/
+theorem struct_bytes_maps (fs : Fields) (vs : Vals) (fl : Flags)
+    (hty : tyOKM (.struct fs) = true) (hv : hasTypesM fs vs = true) (hz : fl.zigzag = false)
+    (hlen : (encode (.struct (fieldsOf 1 fs)) (.struct vs) fl).length < 2 ^ 64) :
+    encode (.struct (fieldsOf 1 fs)) (.struct vs) fl = encRecs (allRecordsM fl.wantzero fs vs) :=
+  Lemmas.ProtoMap.struct_bytesM fs vs fl hty hv hz hlen
+
+open Lemmas.ProtoWire Lemmas.ProtoMap in
+/-- **reference decodes what Marshal writes, with maps**, up to the canonical form; `valOKM` excludes the known
+findings (pointer to empty encoding, empty-map marker) and asks for distinct keys -/
+theorem reference_decodes_marshal_maps_partial (fs : Fields) (v : Val)
+    (hty : tyOKM (.struct fs) = true) (hv : hasTypeM (.struct fs) v = true) (hne : valOKM (.struct fs) v = true)
+    (hlen : (marshal (.struct fs) v).length < 2 ^ 64) :
+    (Spec.Protobuf.decode (.struct fs) (marshal (.struct fs) v)).map (Spec.Protobuf.canonical (.struct fs))
+      = some (Spec.Protobuf.canonical (.struct fs) v) :=
+  Lemmas.ProtoMap.decode_marshal_map_partial fs v hty hv hne hlen
 
 end Enc.Props.C12
